@@ -38,7 +38,7 @@ PARTNER_KEYS = {"EM Dataset", "Current Electrodes", "Potential Electrodes"}
 
 
 def floors(tier):
-    return {"copies-judged": 150, "C12.differs": 1500, "C12.source-changed": 150, "C12.aliasing": 300, "C12.pg-remap": 80, "group-subtrees": 10, "drillhole-groups": 8, "classes-covered": 40}
+    return {"copies-judged": 150, "C12.differs": 1200, "C12.source-changed": 150, "C12.aliasing": 300, "C12.pg-remap": 80, "group-subtrees": 10, "drillhole-groups": 8, "classes-covered": 40}
 
 
 def EXHAUSTIVE(tier):
